@@ -4,6 +4,7 @@ import CC.Generated.Consts
 import CC.Model.Sym
 import CC.Props.C12
 import CC.Model.Wire
+import CC.Props.C13
 /-! # C07 — encapsulations and ciphertexts are non-malleable -/
 
 namespace CC.Props.C07
@@ -129,5 +130,19 @@ theorem encapsulation_bytes_malleable :
     honest ≠ padded ∧ Wire.xenc Wire.cfgC25519 padded = Wire.xenc Wire.cfgC25519 honest ∧
       (Wire.xenc Wire.cfgC25519 honest).isSome = true := by
   decide
+
+/-- what remains true at the level of bytes (`…_partial`: the full statement is disproved above): on
+*canonical* serialisations — what `serialize` writes — decoding is injective, i.e. two different
+well-formed encapsulations never share their bytes, and a byte string that is the canonical form of
+some well-formed encapsulation decodes to that encapsulation and to nothing else. So a modification
+that keeps the bytes canonical changes the decoded encapsulation (or makes decoding fail), and
+`binding` then applies to its components. -/
+theorem canonical_bytes_determine_encapsulation_partial (c : Wire.Cfg) (x y : Wire.WEnc)
+    (hx : CC.Props.C13.WfEnc c x) (hy : CC.Props.C13.WfEnc c y) (h : Wire.encXenc x = Wire.encXenc y) : x = y := by
+  have h1 := CC.Props.C13.xenc_roundtrip c x hx []
+  have h2 := CC.Props.C13.xenc_roundtrip c y hy []
+  rw [h] at h1
+  rw [h1] at h2
+  simpa using h2
 
 end CC.Props.C07
